@@ -377,6 +377,22 @@ static void run_history(Ctx& c, const Env& env, bool polyline, int target_len, i
   Runner R(c, env, polyline, cls, scan_prob);
   double pq = r.coin(0.3) ? 0.05 : r.uniform(0.1, 0.6);         // density of query operations
   int guard = 0;
+  // operations on the EMPTY object (fresh, or just cleared): AddEdge is documented to do nothing, the Test* queries and Compute
+  // have their own empty-object paths (added after the reach monitor showed that TestPoint / AddEdge were never called on an
+  // empty object, and seeded change C08-r4s1)
+  auto empty_prelude = [&]() {
+    int n = r.range(1, 4);
+    for (int q = 0; q < n; ++q)
+      switch (r.below(6)) {
+      case 0: R.add_edge(r.uniform(-180, 180), std::min(env.a, env.b) / gh::WGS84_A * r.logu(1, 5e6)); break;
+      case 1: { std::string cl; R.test_point(gh::pick_lat(r, cl), r.coin(0.3) ? special_lon(r) : r.uniform(-180, 180), r.coin(), r.coin(), false); break; }
+      case 2: R.test_edge(r.uniform(-180, 180), std::min(env.a, env.b) / gh::WGS84_A * r.logu(1, 5e6), r.coin(), r.coin()); break;
+      case 3: R.compute(r.coin()); break;
+      case 4: R.current_point(); break;
+      default: R.number_points(); break;
+      }
+  };
+  if (r.coin(0.35)) empty_prelude();
   while (R.nops < target_len && guard++ < 64) {
     std::vector<PV> sh = gen_shape(r, env, kind, rhumb);
     for (size_t i = 0; i < sh.size() && R.nops < target_len; ++i) {
@@ -405,7 +421,7 @@ static void run_history(Ctx& c, const Env& env, bool polyline, int target_len, i
     }
     if (R.nops >= target_len) break;
     // between shapes: usually Clear (state leakage between histories), sometimes keep accumulating
-    if (r.coin(0.75)) { if (r.coin(0.5)) R.compute(true); R.clear(); if (r.coin(0.3)) { R.compute(false); R.test_edge(10, 1000 * std::min(env.a, env.b) / gh::WGS84_A, false, true); R.current_point(); R.number_points(); } }
+    if (r.coin(0.75)) { if (r.coin(0.5)) R.compute(true); R.clear(); if (r.coin(0.3)) { R.compute(false); R.test_edge(10, 1000 * std::min(env.a, env.b) / gh::WGS84_A, false, true); R.current_point(); R.number_points(); } else if (r.coin(0.4)) empty_prelude(); }
     kind = (int)r.below(NSHAPES);
   }
   R.finish();
